@@ -50,12 +50,12 @@ def aLoop (S : List Step) (rlen : Nat) (e : Event) : Nat → List AEntry → AAc
 
 abbrev AState := List (List Nat)
 
-def aStep (S : List Step) (st : AState) (e : Event) : AState × Val :=
+def aStep (S : List Step) (F : Nat) (st : AState) (e : Event) : AState × Val :=
   if e.isEnd then (st.drop 1, .none)
   else if e.isNsOrCdata then (st, .none)
   else
     let q : List AEntry := (st.headD []).map fun x => (x, true)
-    let acc := aLoop ns vs S (realLen S) e (2 * S.length + q.length + 2) q ⟨[], false⟩
+    let acc := aLoop ns vs S (realLen S) e (2 * F + q.length + 2) q ⟨[], false⟩
     (if e.isStart then acc.nextPos :: st else st, if acc.matched then .bool true else .none)
 
 /-- no predicate of any step is a position test (in the model's terms) -/
@@ -125,35 +125,89 @@ theorem pushSelf_map (q : List QEntry) (x1 cc : Nat) :
     simp only [pushSelf, pushSelfA, List.map_cons, qAbs]
     split <;> simp [qAbs]
 
-structure AccRel (g : GAcc) (a : AAcc) : Prop where
+theorem pushDescA_mem (N : List Nat) (x y : Nat) : y ∈ pushDescA N x ↔ (y ∈ N ∨ y = x) := by
+  unfold pushDescA
+  cases hl : N.getLast? with
+  | none =>
+    have : N = [] := List.getLast?_eq_none_iff.mp hl
+    subst this; simp
+  | some l =>
+    simp only
+    by_cases h : (l == x) = true
+    · simp only [h, if_true]
+      have hlx : l = x := by simpa using h
+      have hmem : x ∈ N := hlx ▸ List.mem_of_getLast? hl
+      constructor
+      · exact Or.inl
+      · rintro (h1 | h1)
+        · exact h1
+        · exact h1 ▸ hmem
+    · simp [h]
+
+theorem pushSelf_fst (q : List QEntry) (x1 cc : Nat) (t : QEntry) (h : t ∈ pushSelf q x1 cc) :
+    t.1 = x1 ∨ ∃ t' ∈ q, t'.1 = t.1 := by
+  cases q with
+  | nil => simp [pushSelf] at h; subst h; exact Or.inl rfl
+  | cons t0 q' =>
+    obtain ⟨x', p', m'⟩ := t0
+    simp only [pushSelf] at h
+    split at h
+    · rcases List.mem_cons.mp h with h1 | h1
+      · subst h1; exact Or.inl rfl
+      · exact Or.inr ⟨t, h1, rfl⟩
+    · rcases List.mem_cons.mp h with h1 | h1
+      · subst h1; exact Or.inr ⟨(x', p', m'), List.mem_cons_self, rfl⟩
+      · exact Or.inr ⟨t, List.mem_cons_of_mem _ h1, rfl⟩
+
+/-- what GenericStrategy returns where the position machine says "matched": `True`, or the
+    value of the final attribute step when there is one and it is not empty -/
+def gate (m v : Val) : Val :=
+  match v with
+  | .bool true => if m.truthy then m else .none
+  | _ => .none
+
+/-- accumulators of the two loops: same positions below `rlen`, every position carries a
+    counter, and the result is the gated `matched` flag -/
+structure AccRel (rlen : Nat) (m : Val) (g : GAcc) (a : AAcc) : Prop where
   pos : g.nextPos.map GPos.x = a.nextPos
   cous : ∀ p ∈ g.nextPos, p.cous ≠ []
-  ret : g.retval = if a.matched then .bool true else .none
+  bound : ∀ y ∈ a.nextPos, y < rlen
+  ret : g.retval = if a.matched && m.truthy then m else .none
 
+theorem getElem?_take_lt (S : List Step) (rlen x : Nat) (h : x < rlen) : (S.take rlen)[x]? = S[x]? := by
+  simp [List.getElem?_take, h]
+
+/-- the loop of GenericStrategy on steps without position tests runs like the loop of the
+    position machine on the real steps (`steps[:rlen]`: without a final attribute step) -/
 theorem gLoop_abstract (S : List Step) (rlen : Nat) (e : Event)
-    (hnp : NoPositional ns vs S) (hlast : lastResult S e ns = .bool true) :
-    ∀ (fuel : Nat) (Qg : List QEntry) (g : GAcc) (a : AAcc), AccRel g a →
-      AccRel (gLoop S rlen e ns vs fuel Qg g) (aLoop ns vs S rlen e fuel (Qg.map qAbs) a) := by
+    (hnp : NoPositional ns vs (S.take rlen)) :
+    ∀ (fuel : Nat) (Qg : List QEntry) (g : GAcc) (a : AAcc), (∀ t ∈ Qg, t.1 < rlen) →
+      AccRel rlen (lastResult S e ns) g a →
+      AccRel rlen (lastResult S e ns) (gLoop S rlen e ns vs fuel Qg g)
+        (aLoop ns vs (S.take rlen) rlen e fuel (Qg.map qAbs) a) := by
   intro fuel
   induction fuel with
-  | zero => intro Qg g a h; simpa [gLoop, aLoop] using h
+  | zero => intro Qg g a _ h; simpa [gLoop, aLoop] using h
   | succ fuel ih =>
-    intro Qg g a h
+    intro Qg g a hQ h
     cases Qg with
     | nil => simpa [gLoop, aLoop] using h
     | cons t q =>
       obtain ⟨x, pcou, mcou⟩ := t
+      have hx : x < rlen := hQ (x, pcou, mcou) List.mem_cons_self
+      have hq' : ∀ t ∈ q, t.1 < rlen := fun t ht => hQ t (List.mem_cons_of_mem _ ht)
+      have htk := getElem?_take_lt S rlen x hx
       cases hst : S[x]? with
-      | none => simpa [gLoop, aLoop, qAbs, hst] using h
+      | none => simpa [gLoop, aLoop, qAbs, hst, htk] using h
       | some st =>
-        have hmem : st ∈ S := List.mem_of_getElem? hst
+        have hmem : st ∈ S.take rlen := List.mem_of_getElem? (htk.trans hst)
         have hpre := gPreds_nonpos ns vs e (pcou ++ mcou) st.preds (fun p hp => hnp st hmem p hp e)
-        simp only [gLoop, aLoop, List.map_cons, qAbs, hst, hpre, hitE]
+        simp only [gLoop, aLoop, List.map_cons, qAbs, htk, hst, hpre, hitE]
         -- the next_pos after the descendant bookkeeping
-        have hN : AccRel
+        have hN : AccRel rlen (lastResult S e ns)
             ⟨(if isDescLike st.axis && !pcou.isEmpty then pushDesc g.nextPos x pcou else g.nextPos), g.store, g.retval⟩
             ⟨(if isDescLike st.axis && !pcou.isEmpty then pushDescA a.nextPos x else a.nextPos), a.matched⟩ := by
-          refine ⟨?_, ?_, h.ret⟩
+          refine ⟨?_, ?_, ?_, h.ret⟩
           · split
             · rw [pushDesc_map, h.pos]
             · exact h.pos
@@ -163,15 +217,30 @@ theorem gLoop_abstract (S : List Step) (rlen : Nat) (e : Event)
                 intro h0; simp [h0] at hc
               exact pushDesc_cous _ _ _ this h.cous
             · exact h.cous
+          · simp only
+            split
+            · intro y hy
+              rcases (pushDescA_mem _ _ _).mp hy with h1 | h1
+              · exact h.bound y h1
+              · omega
+            · exact h.bound
         by_cases ht : st.test.matches e ns = true
         · simp only [ht, Bool.not_true, Bool.false_eq_true, if_false, Bool.true_and]
           by_cases hp : (st.preds.all fun p => (p.eval e ns vs).truthy) = true
           · simp only [hp, Bool.not_true, Bool.false_eq_true, if_false]
             by_cases hl : (x + 1 == rlen) = true
-            · simp only [hl, if_true, hlast, Val.truthy]
-              exact ih q _ _ ⟨hN.pos, hN.cous, by simp⟩
+            · simp only [hl, if_true]
+              refine ih q _ _ hq' ⟨hN.pos, hN.cous, hN.bound, ?_⟩
+              have hr := hN.ret
+              simp only at hr ⊢
+              cases hm : (lastResult S e ns).truthy with
+              | true => simp
+              | false => simp [hr, hm]
             · simp only [hl, Bool.false_eq_true, if_false]
-              rw [← pushSelf_map]
+              have hx1 : x + 1 < rlen := by
+                have : x + 1 ≠ rlen := by simpa using hl
+                omega
+              rw [getElem?_take_lt S rlen (x + 1) hx1, ← pushSelf_map]
               have hq : (if ((S[x + 1]?.map Step.axis).getD .child == Axis.descendantOrSelf ||
                             (S[x + 1]?.map Step.axis).getD .child == Axis.self) = true
                           then (pushSelf q (x + 1) g.store.length).map qAbs else q.map qAbs)
@@ -180,7 +249,13 @@ theorem gLoop_abstract (S : List Step) (rlen : Nat) (e : Event)
                           then pushSelf q (x + 1) g.store.length else q).map qAbs := by
                 split <;> rfl
               rw [hq]
-              refine ih _ _ _ ⟨?_, ?_, hN.ret⟩
+              refine ih _ _ _ ?_ ⟨?_, ?_, ?_, hN.ret⟩
+              · intro t ht'
+                split at ht'
+                · rcases pushSelf_fst q (x + 1) _ t ht' with h1 | ⟨t', ht1, ht2⟩
+                  · omega
+                  · rw [← ht2]; exact hq' t' ht1
+                · exact hq' t ht'
               · split
                 · rw [List.map_append, hN.pos]; rfl
                 · exact hN.pos
@@ -190,42 +265,59 @@ theorem gLoop_abstract (S : List Step) (rlen : Nat) (e : Event)
                   · exact hN.cous p h1
                   · simp at h1; subst h1; simp
                 · exact hN.cous
+              · simp only
+                split
+                · intro y hy
+                  rcases List.mem_append.mp hy with h1 | h1
+                  · exact hN.bound y h1
+                  · simp at h1; omega
+                · exact hN.bound
           · simp only [hp, Bool.not_false, if_true]
-            exact ih q _ _ hN
+            exact ih q _ _ hq' hN
         · simp only [ht, Bool.not_false, if_true, Bool.false_and]
-          exact ih q _ _ hN
+          exact ih q _ _ hq' hN
 
-/-- states of GenericStrategy and of the position machine: same positions, and every position
-    carries at least one counter (which is what the code uses as "came from the parent") -/
-structure StRel (g : GState) (a : AState) : Prop where
+/-- states of GenericStrategy and of the position machine: same positions (all below `rlen`),
+    and every position carries at least one counter (which is what the code uses as "came
+    from the parent") -/
+structure StRel (rlen : Nat) (g : GState) (a : AState) : Prop where
   pos : g.stack.map (fun l => l.map GPos.x) = a
   cous : ∀ l ∈ g.stack, ∀ p ∈ l, p.cous ≠ []
+  bound : ∀ l ∈ g.stack, ∀ p ∈ l, p.x < rlen
 
-theorem gStep_abstract (S : List Step) (hnp : NoPositional ns vs S)
-    (hlast : ∀ e, lastResult S e ns = .bool true) (g : GState) (a : AState) (h : StRel g a) (e : Event) :
-    StRel (gStep S ns vs g e).1 (aStep ns vs S a e).1 ∧ (gStep S ns vs g e).2 = (aStep ns vs S a e).2 := by
-  obtain ⟨hpos, hcous⟩ := h
+theorem gStep_abstract (S : List Step) (hrl : realLen (S.take (realLen S)) = realLen S)
+    (hnp : NoPositional ns vs (S.take (realLen S)))
+    (g : GState) (a : AState) (h : StRel (realLen S) g a) (e : Event) :
+    StRel (realLen S) (gStep S ns vs g e).1 (aStep ns vs (S.take (realLen S)) S.length a e).1 ∧
+    (gStep S ns vs g e).2 = gate (lastResult S e ns) (aStep ns vs (S.take (realLen S)) S.length a e).2 := by
+  obtain ⟨hpos, hcous, hbound⟩ := h
   subst hpos
   unfold gStep aStep
   by_cases he : e.isEnd = true
   · simp only [he, if_true]
-    refine ⟨⟨by simp [List.map_drop], ?_⟩, trivial⟩
-    intro l hl
-    exact hcous l (List.mem_of_mem_drop hl)
+    refine ⟨⟨by simp [List.map_drop], ?_, ?_⟩, rfl⟩
+    · intro l hl
+      exact hcous l (List.mem_of_mem_drop hl)
+    · intro l hl
+      exact hbound l (List.mem_of_mem_drop hl)
   · simp only [he, Bool.false_eq_true, if_false]
     by_cases hm : e.isNsOrCdata = true
     · simp only [hm, if_true]
-      exact ⟨⟨rfl, hcous⟩, trivial⟩
+      exact ⟨⟨rfl, hcous, hbound⟩, rfl⟩
     · simp only [hm, Bool.false_eq_true, if_false]
       -- the top of the stack
-      obtain ⟨top, htopdef, htop⟩ : ∃ top, g.stack.headD [] = top ∧ ∀ p ∈ top, p.cous ≠ [] := by
-        refine ⟨_, rfl, ?_⟩
-        cases hst : g.stack with
-        | nil => intro p hp; simp at hp
-        | cons l ls => intro p hp; exact hcous l (by simp [hst]) p (by simpa using hp)
+      obtain ⟨top, htopdef, htop, htopb⟩ : ∃ top, g.stack.headD [] = top ∧ (∀ p ∈ top, p.cous ≠ []) ∧
+          (∀ p ∈ top, p.x < realLen S) := by
+        refine ⟨_, rfl, ?_, ?_⟩
+        · cases hst : g.stack with
+          | nil => intro p hp; simp at hp
+          | cons l ls => intro p hp; exact hcous l (by simp [hst]) p (by simpa using hp)
+        · cases hst : g.stack with
+          | nil => intro p hp; simp at hp
+          | cons l ls => intro p hp; exact hbound l (by simp [hst]) p (by simpa using hp)
       have h1 : (g.stack.map fun l => l.map GPos.x).headD [] = top.map GPos.x := by
         rw [← htopdef]; cases g.stack <;> simp
-      rw [h1, htopdef]
+      rw [h1, htopdef, hrl]
       have hq : (top.map fun p => ((p.x, p.cous, []) : QEntry)).map qAbs
           = (top.map GPos.x).map fun x => ((x, true) : AEntry) := by
         rw [List.map_map, List.map_map]
@@ -233,13 +325,14 @@ theorem gStep_abstract (S : List Step) (hnp : NoPositional ns vs S)
         intro p hp
         have := htop p hp
         simp [qAbs, Function.comp, this]
-      have hacc := gLoop_abstract ns vs S (realLen S) e hnp (hlast e)
+      have hacc := gLoop_abstract ns vs S (realLen S) e hnp
         (2 * S.length + (top.map fun p => ((p.x, p.cous, []) : QEntry)).length + 2)
         (top.map fun p => ((p.x, p.cous, []) : QEntry)) ⟨[], g.store, .none⟩ ⟨[], false⟩
-        ⟨rfl, by simp, rfl⟩
+        (by intro t ht; simp only [List.mem_map] at ht; obtain ⟨p, hp, rfl⟩ := ht; exact htopb p hp)
+        ⟨rfl, by simp, by simp, by simp⟩
       rw [hq] at hacc
       simp only [List.length_map] at hacc ⊢
-      refine ⟨⟨?_, ?_⟩, hacc.ret⟩
+      refine ⟨⟨?_, ?_, ?_⟩, ?_⟩
       · simp only
         split
         · rw [List.map_cons, hacc.pos]
@@ -251,25 +344,68 @@ theorem gStep_abstract (S : List Step) (hnp : NoPositional ns vs S)
           · subst h1; exact hacc.cous
           · exact hcous l h1
         · exact hcous
+      · simp only
+        split
+        · intro l hl
+          rcases List.mem_cons.mp hl with h1 | h1
+          · subst h1
+            intro p hp
+            have : p.x ∈ (aLoop ns vs (S.take (realLen S)) (realLen S) e (2 * S.length + top.length + 2)
+                (List.map (fun x => (x, true)) (List.map GPos.x top)) ⟨[], false⟩).nextPos := by
+              rw [← hacc.pos]; exact List.mem_map_of_mem hp
+            exact hacc.bound _ this
+          · exact hbound l h1
+        · exact hbound
+      · rw [hacc.ret]
+        cases (aLoop ns vs (S.take (realLen S)) (realLen S) e (2 * S.length + top.length + 2)
+            (List.map (fun x => (x, true)) (List.map GPos.x top)) ⟨[], false⟩).matched <;> simp [gate]
 
-/-- related runs deliver the same results -/
+/-- related runs deliver related results -/
 theorem runOne_rel {σ τ : Type} (f : σ → Event → σ × Val) (g : τ → Event → τ × Val) (R : σ → τ → Prop)
-    (h : ∀ s t e, R s t → R (f s e).1 (g t e).1 ∧ (f s e).2 = (g t e).2) :
-    ∀ (es : List Event) (s : σ) (t : τ), R s t → (runOne f s es).1 = (runOne g t es).1 := by
+    (φ : Event → Val → Val)
+    (h : ∀ s t e, R s t → R (f s e).1 (g t e).1 ∧ (f s e).2 = φ e (g t e).2) :
+    ∀ (es : List Event) (s : σ) (t : τ), R s t →
+      (runOne f s es).1 = List.zipWith φ es (runOne g t es).1 := by
   intro es
   induction es with
   | nil => intro s t _; rfl
   | cons e es ih =>
     intro s t hr
     obtain ⟨h1, h2⟩ := h s t e hr
-    simp only [runOne, h2, ih _ _ h1]
+    simp only [runOne, h2, ih _ _ h1, List.zipWith_cons_cons]
 
-/-- without position tests GenericStrategy reports what the position machine reports -/
-theorem generic_eq_abstract (S : List Step) (hnp : NoPositional ns vs S)
-    (hlast : ∀ e, lastResult S e ns = .bool true) (es : List Event) :
-    (runOne (gStep S ns vs) gInit es).1 = (runOne (aStep ns vs S) [[0]] es).1 :=
-  runOne_rel _ _ StRel (fun s t e hr => gStep_abstract ns vs S hnp hlast s t hr e) es gInit [[0]]
-    ⟨rfl, by simp [gInit]⟩
+/-- without position tests GenericStrategy reports what the position machine reports on the
+    steps before a final attribute step, gated by the value of that step -/
+theorem generic_eq_abstract (S : List Step) (hrl : realLen (S.take (realLen S)) = realLen S)
+    (hnp : NoPositional ns vs (S.take (realLen S))) (h0 : 0 < realLen S) (es : List Event) :
+    (runOne (gStep S ns vs) gInit es).1
+      = List.zipWith (fun e v => gate (lastResult S e ns) v) es
+          (runOne (aStep ns vs (S.take (realLen S)) S.length) [[0]] es).1 :=
+  runOne_rel _ _ (StRel (realLen S)) _ (fun s t e hr => gStep_abstract ns vs S hrl hnp s t hr e) es gInit [[0]]
+    ⟨rfl, by simp [gInit], by simp [gInit, h0]⟩
+
+theorem aStep_out (S : List Step) (F : Nat) (st : AState) (e : Event) :
+    (aStep ns vs S F st e).2 = .none ∨ (aStep ns vs S F st e).2 = .bool true := by
+  unfold aStep
+  split
+  · exact Or.inl rfl
+  · split
+    · exact Or.inl rfl
+    · simp only
+      split
+      · exact Or.inr rfl
+      · exact Or.inl rfl
+
+theorem zipWith_gate_true (S : List Step) (F : Nat) : ∀ (es : List Event) (st : AState),
+    List.zipWith (fun (_ : Event) v => gate (.bool true) v) es (runOne (aStep ns vs S F) st es).1
+      = (runOne (aStep ns vs S F) st es).1 := by
+  intro es
+  induction es with
+  | nil => intro st; rfl
+  | cons e es ih =>
+    intro st
+    simp only [runOne, List.zipWith_cons_cons, ih]
+    rcases aStep_out ns vs S F st e with h | h <;> simp [h, gate, Val.truthy]
 
 end
 end Genshi.Path
